@@ -555,6 +555,171 @@ impl Scenario for ForeignAdminDuringPaseFailSafe {
     }
 }
 
+
+/// C11: administrative changes which were confirmed to the peer outside of the peer's own
+/// fail-safe - an ACL write (optionally while another commissioner holds a fail-safe over PASE),
+/// a fabric removal that leaves a hole in the fabric indices - survive a restart.
+pub struct ConfirmedChangesSurviveRestart {
+    pub faults: bool,
+}
+
+impl Scenario for ConfirmedChangesSurviveRestart {
+    fn property(&self) -> &'static str {
+        "C11"
+    }
+    fn name(&self) -> &'static str {
+        if self.faults {
+            "confirmed-changes-then-restart-faults"
+        } else {
+            "confirmed-changes-then-restart"
+        }
+    }
+
+    fn run(&self, seed: u64) -> Outcome {
+        let action = tape::choose(3); // 0 ACL write, 1 ACL write during a foreign PASE fail-safe, 2 removal of fabric 1 by fabric 2
+        let t_action = 12_000 + tape::choose(8) * 500;
+        let crash_at = (t_action as u64 + 300 + tape::choose(30) as u64 * 100) * 1000;
+        let mut a_script = vec![CtlStep::Commission { dev: 0 }, CtlStep::OpenWindow { dev: 0, secs: 900 }];
+        let mut b_script = vec![CtlStep::Sleep { ms: 4_000 }, CtlStep::Commission { dev: 0 }, CtlStep::ReadOnOff { dev: 0 }];
+        let mut c_script = vec![];
+        match action {
+            0 | 1 => {
+                if action == 1 {
+                    // A third commissioner establishes PASE shortly before: its fail-safe is armed
+                    a_script.push(CtlStep::SleepUntil { ms: 9_000 });
+                    a_script.push(CtlStep::OpenWindow { dev: 0, secs: 900 });
+                    c_script.push(CtlStep::SleepUntil { ms: t_action - 1_000 - tape::choose(4) * 200 });
+                    c_script.push(CtlStep::PaseAttempt { dev: 0, passcode: TEST_PASSCODE });
+                    c_script.push(CtlStep::Sleep { ms: 20_000 });
+                }
+                a_script.push(CtlStep::SleepUntil { ms: t_action });
+                a_script.push(CtlStep::AclWrite { dev: 0, subject: EXTRA_SUBJECT });
+            }
+            _ => {
+                b_script.push(CtlStep::SleepUntil { ms: t_action });
+                b_script.push(CtlStep::RemoveFabric { dev: 0, fabric_index: 1 });
+            }
+        }
+        // After the restart: the surviving administrators read (twice: the first attempt may run
+        // into the stale session)
+        a_script.push(CtlStep::SleepUntil { ms: 40_000 });
+        a_script.push(CtlStep::ReadOnOff { dev: 0 });
+        a_script.push(CtlStep::ReadOnOff { dev: 0 });
+        b_script.push(CtlStep::SleepUntil { ms: 40_000 });
+        b_script.push(CtlStep::ReadOnOff { dev: 0 });
+        b_script.push(CtlStep::ReadOnOff { dev: 0 });
+        let net = if self.faults && tape::chance(500) {
+            UniformNet {
+                latency_us: 500,
+                jitter_us: 2000,
+                drop_permille: [20, 60][tape::choose(2) as usize],
+                dup_permille: 40,
+                hold_permille: 40,
+                hold_max_ms: 300,
+                ..Default::default()
+            }
+        } else {
+            UniformNet { latency_us: 1000, ..Default::default() }
+        };
+        let mut controllers = vec![
+            CtlSpec { fabric_id: FABRIC_ID, node_id: CTL_NODE_ID, script: a_script, continue_on_error: true },
+            CtlSpec { fabric_id: 2, node_id: CTL_NODE_ID + 1, script: b_script, continue_on_error: true },
+        ];
+        if !c_script.is_empty() {
+            controllers.push(CtlSpec { fabric_id: 3, node_id: CTL_NODE_ID + 2, script: c_script, continue_on_error: true });
+        }
+        let cfg = FullCfg {
+            n_devices: 1,
+            controllers,
+            handlers: 4,
+            net,
+            sched: SchedCfg {
+                nonfifo_permille: if self.faults { [0, 100, 300][tape::choose(3) as usize] } else { 0 },
+                max_polls: 4_000_000,
+                max_time: 2_000 * SEC,
+                ..Default::default()
+            },
+            limit_us: 1_000 * SEC,
+            kv_faults: vec![],
+            crashes: vec![crash_at],
+            restart_after_us: 300 * MS,
+            cancels: vec![],
+            calm_at_us: None,
+        };
+        // (time, fabric indices present, ACL size of fabric 1, extra entry present)
+        let mut series: Vec<(u64, Vec<u8>, usize, bool)> = Vec::new();
+        let run = drive_full_with(seed, cfg, &mut |t, states| {
+            if let Some(Some(st)) = states.first() {
+                let idx: Vec<u8> = st.fabrics.iter().map(|f| f.fab_idx).collect();
+                let acl = st.fabrics.iter().find(|f| f.fab_idx == 1).map(|f| f.acl.clone()).unwrap_or_default();
+                let extra = acl.iter().any(|e| e.contains(&format!("{}", EXTRA_SUBJECT)));
+                let cur = (idx, acl.len(), extra);
+                if series.last().map(|l| (l.1.clone(), l.2, l.3) != cur).unwrap_or(true) {
+                    series.push((t, cur.0, cur.1, cur.2));
+                }
+            }
+        });
+        let mut out = Outcome::default();
+        common_counters(&run, &mut out);
+        let a = results(&run, 1);
+        let b = results(&run, 2);
+        let ok = |r: &Vec<(&'static str, u16, u64)>, name: &str| r.iter().find(|(n, _, _)| *n == name).map(|(_, c, t)| (*c == 0xffff, *t));
+        let both_commissioned = ok(&a, "commission").map(|x| x.0).unwrap_or(false) && ok(&b, "commission").map(|x| x.0).unwrap_or(false);
+        let describe = || {
+            format!(
+                "action {}; crash at t={} us; A {:?}; B {:?}; device (t ms, fabric indices, ACL entries of fabric 1, extra entry): {:?}; incarnations {}",
+                ["ACL write", "ACL write during a foreign PASE fail-safe", "RemoveFabric(1) by fabric 2"][action as usize],
+                crash_at,
+                a.iter().filter(|(n, _, _)| *n != "sleep").map(|(n, c, t)| format!("{n}:{c:x}@{}", t / 1000)).collect::<Vec<_>>(),
+                b.iter().filter(|(n, _, _)| *n != "sleep").map(|(n, c, t)| format!("{n}:{c:x}@{}", t / 1000)).collect::<Vec<_>>(),
+                series.iter().map(|(t, i, n, e)| (t / 1000, i.clone(), *n, *e)).collect::<Vec<_>>(),
+                run.device_incarnations
+            )
+        };
+        let fin = series.last().cloned();
+        if run.all_done && both_commissioned && run.device_incarnations >= 2 {
+            match action {
+                0 | 1 => {
+                    if let Some((true, t_ack)) = ok(&a, "acl_write") {
+                        if t_ack < crash_at {
+                            out.count("c11_acl_writes_confirmed_before_restart", 1);
+                            if !fin.as_ref().map(|f| f.3).unwrap_or(false) {
+                                out.violate("C11-confirmed-change-lost", describe());
+                            }
+                        }
+                    }
+                    // Both fabrics are still there in any case
+                    if fin.as_ref().map(|f| f.1 != vec![1, 2]).unwrap_or(true) {
+                        out.violate("C11-fabric-lost-over-restart", describe());
+                    }
+                }
+                _ => {
+                    if let Some((true, t_ack)) = ok(&b, "remove_fabric") {
+                        if t_ack < crash_at {
+                            out.count("c11_removals_confirmed_before_restart", 1);
+                            if fin.as_ref().map(|f| f.1 != vec![2]).unwrap_or(true) {
+                                out.violate("C11-fabric-lost-over-restart", describe());
+                            }
+                            // The surviving fabric's administrator is served again
+                            if !self.faults && !b.iter().rev().take(2).any(|(n, c, _)| *n == "read_onoff" && *c == 0xffff) {
+                                out.violate("C11-committed-device-not-reachable", describe());
+                            }
+                        }
+                    }
+                }
+            }
+        } else {
+            out.count("runs_incomplete", 1);
+        }
+        out.nontrivial = both_commissioned && run.device_incarnations >= 2;
+        out.state_sigs.push(action as u64);
+        let action_name = ["ACL write", "ACL write during a foreign PASE fail-safe", "RemoveFabric(1) by fabric 2"][action as usize];
+        out.sample = Some(json!({"action": action_name, "crash_at_us": crash_at,
+            "A": a.iter().filter(|(n, _, _)| *n != "sleep").map(|(n, c, t)| format!("{n}:{c:x}@{}ms", t / 1000)).collect::<Vec<_>>()}));
+        out
+    }
+}
+
 pub fn defs() -> Vec<PropertyDef> {
     let mk = |which: Which, id: &'static str| PropertyDef {
         id,
@@ -591,5 +756,9 @@ pub fn defs() -> Vec<PropertyDef> {
         c08.families.push(Family { scenario: sc, weight: w, fault_free: ff });
     }
     c08.budget_s = (100, 900);
-    vec![c08, mk(Which::C11, "C11")]
+    let mut c11 = mk(Which::C11, "C11");
+    c11.families.push(Family { scenario: Box::new(ConfirmedChangesSurviveRestart { faults: false }), weight: 3, fault_free: false });
+    c11.families.push(Family { scenario: Box::new(ConfirmedChangesSurviveRestart { faults: true }), weight: 2, fault_free: false });
+    c11.budget_s = (90, 900);
+    vec![c08, c11]
 }
